@@ -177,6 +177,34 @@ class Ctx:
         if os.environ.get('VERIF_MEMLOG'):
             import resource
             sys.stderr.write('MEMLOG %s after %s: maxrss %d MB\n' % (self.pid, name, resource.getrusage(resource.RUSAGE_SELF).ru_maxrss // 1024))
+        if res.get('unavailable'):
+            # the harness unit of this component reaches into an internal interface that no longer compiles (renamed private
+            # member, changed helper signature).  The property may well still hold: when the check names a fallback -- whole calls
+            # through the PUBLIC entry point, compared bit for bit with the model -- that correspondence is the tie instead.
+            why = ''
+            try:
+                why = json.load(open(os.path.join(self.bdir, 'unavailable.json'))).get(sorted(res['unavailable'])[0], '')
+            except Exception:
+                pass
+            fb = getattr(self, 'fallback_e2e', None)
+            fb_cases = fb() if (fb and verdict) else None
+            if fb_cases:
+                r2 = vf.run_both(self.bdir, fb_cases, name + ' fallback', timeout=timeout, model=True, keys={'status', 'labels', 'u', 'v', 'aff', 'rep'})
+                okfb = not r2['mismatches'] and not r2['crashes'] and not r2.get('unavailable')
+                self.components[name + ' -> fallback K-E2E(public entry point, bit-exact)'] = {
+                    'cases': r2['n'], 'compared_tokens': r2['compared_tokens'], 'mismatches': len(r2['mismatches']), 'crashes': len(r2['crashes']),
+                    'compared': 'status, labels, u, v, affinity, report'}
+                if okfb:
+                    self.extra.setdefault('advisory', []).append({'component': name, 'what': 'harness unit %s does not compile against this tree (%s); whole calls through the public entry point agree bit for bit with the model instead' % (sorted(res['unavailable']), why[:200])})
+                    self.notes.append('ADVISORY component %s unavailable (%s): tied by the public-entry-point correspondence instead' % (name, why[:160]))
+                    self.components[name] = {'cases': res['n'], 'compared_tokens': 0, 'mismatches': 0, 'crashes': 0, 'compared': 'UNAVAILABLE (see fallback)'}
+                    return None
+                self.tie_failures.append('correspondence %s unavailable and its fallback disagrees: %d mismatching case(s)' % (name, len(r2['mismatches'])))
+                return None
+            if verdict:
+                self.tie_failures.append('correspondence %s could not be run: harness unit %s does not compile against this tree (%s)' % (name, sorted(res['unavailable']), why[:300]))
+            self.components[name] = {'cases': res['n'], 'compared_tokens': 0, 'mismatches': 0, 'crashes': 0, 'compared': 'UNAVAILABLE'}
+            return None
         if not verdict:
             self.extra.setdefault('diagnostics', {})[name] = {'cases': res['n'], 'compared_tokens': res['compared_tokens'],
                                                                'mismatches': len(res['mismatches']), 'crashes': len(res['crashes']),
